@@ -293,7 +293,7 @@ def check(ctx, fx):
                 n_ops += 1
                 ctx.fail("P2", key, "implicit (seq_cst) or unexpected atomic operation `%s` on the init state — triage" % nm,
                          where=where)
-    ctx.floor("P2", n_ops, 6, "atomic operations on tables_init_state")
+    ctx.floor("P2", n_ops, 5, "atomic operations on tables_init_state")
 
     # ---- P3 ------------------------------------------------------------------------
     for f in fx.functions:
@@ -367,9 +367,32 @@ def check_readers(ctx, fx, G):
 
     alias = {"T:" + ENSURE: "READY", "T:" + READY_FN: "READY"}
 
+    def ready_test(e):
+        """`tables_init_state.load(acquire) == kTablesReady` (the body of tables_are_ready(), written in place)"""
+        e = X.strip(e)
+        if not (isinstance(e, dict) and e.get("k") == "bin" and e.get("op") == "=="):
+            return False
+        for a, b_ in ((e["l"], e["r"]), (e["r"], e["l"])):
+            a0, b0 = X.strip(a), X.strip(b_)
+            if isinstance(a0, dict) and a0.get("k") == "call" and a0.get("name") == "load" and a0.get("recv") is not None \
+                    and X.path(a0["recv"]) == "G:" + STATE and "acquire" in X.show(a0) \
+                    and isinstance(b0, dict) and b0.get("k") == "ref" and b0.get("name") == "kTablesReady":
+                return True
+        return False
+
     def flow(k):
         if k not in flows:
-            flows[k] = MustFlow(byk[k], alias)
+            al = dict(alias)
+            # a bool local that is only ever `<ready test>` stands for tables_are_ready()
+            for vid, init in C.single_inits(byk[k]).items():
+                if ready_test(init):
+                    for b in byk[k]["blocks"]:
+                        for s_ in b["stmts"]:
+                            if s_["k"] == "decl":
+                                for v in s_["vars"]:
+                                    if v["id"] == vid:
+                                        al["eng:L#%s:%s" % (vid, v["name"])] = "READY"
+            flows[k] = MustFlow(byk[k], al)
         return flows[k]
 
     def ready_at(k, bid, i):
